@@ -22,7 +22,8 @@ type Case struct {
 	// Entry: how the event is started (all of them are the same event for the model): 0 WithLevel(level); 1 the level's
 	// own method (Trace() .. Error(), Log() for NoLevel); 2 the io.Writer bridge Logger.Write (NoLevel, no fields, Msg);
 	// 3 / 4 Logger.Print / Printf (Debug, no fields); 5 Logger.Println (the same, for a message that ends in the newline
-	// Println adds).  See EntryUsed.
+	// Println adds); 6 Logger.Panic() (level 5: the finalizer panics with the message after the line is written, and the
+	// program recovers - Obs.Recovered).  See EntryUsed.
 	Entry int
 	// Root: 0 New(w); 1 Nop().Output(w) - Disabled from the start, a descendant is re-enabled by Level() (Step.Mute);
 	// 2 New(nil) - no writer from the start, a descendant is given the writer by Output(w) (Step.Out)
